@@ -24,8 +24,51 @@ def _ref(np, a, m, off, mode, c):
     return out
 
 
+def replay_2d(ob, rp):
+    import itertools
+    root = os.environ.get('PYVC_REPO', '/repo')
+    if root not in sys.path:
+        sys.path.insert(0, root)
+    import numpy as np
+    from odl.util.numerics import resize_array
+    mode, kinds = rp['mode'], rp['kinds']
+    cands = []
+    for base in ((2, 3), (3, 2), (4, 5), (3, 3)):
+        for d in ((1, 1), (2, 1), (1, 2), (2, 3)):
+            n = list(base)
+            m = [b + dd if k == 'grow' else max(b - dd, 1) for b, dd, k in zip(base, d, kinds)]
+            for off in itertools.product(*[range(0, abs(mm - nn) + 1) for mm, nn in zip(m, n)]):
+                cands.append((tuple(n), tuple(m), off))
+    for n, m, off in cands[:400]:
+        try:
+            F = np.zeros(m + n)
+            A = np.zeros(n + m)
+            for j in np.ndindex(*n):
+                e = np.zeros(n)
+                e[j] = 1
+                F[(slice(None),) * 2 + j] = resize_array(e, m, offset=off, pad_mode=mode)
+            changed = False
+            for k in np.ndindex(*m):
+                e = np.zeros(m)
+                e[k] = 1
+                e0 = e.copy()
+                A[(slice(None),) * 2 + k] = resize_array(e, n, offset=off, pad_mode=mode, direction='adjoint')
+                changed = changed or not np.array_equal(e, e0)
+            if changed and 'unchanged' in ob.get('name', ''):
+                return {'reproduced': True, 'detail': 'adjoint direction modified its input array: n=%s m=%s offset=%s' % (n, m, off),
+                        'input': {'n': n, 'm': m, 'offset': off, 'mode': mode}}
+            if not np.allclose(A, np.transpose(F, (2, 3, 0, 1))) and 'transpose' in ob.get('name', ''):
+                return {'reproduced': True, 'detail': 'adjoint is not the transpose: n=%s m=%s offset=%s' % (n, m, off),
+                        'input': {'n': n, 'm': m, 'offset': off, 'mode': mode}}
+        except ValueError:
+            continue
+    return {'reproduced': False, 'detail': 'contract holds natively on the tried 2-d extents'}
+
+
 def replay(ob):
     rp = ob.get('replay') or {}
+    if rp.get('kind') == 'resize-transpose-2d':
+        return replay_2d(ob, rp)
     if rp.get('kind') not in ('resize', 'resize-transpose'):
         return {'reproduced': False, 'detail': 'no native concretisation for this obligation kind'}
     root = os.environ.get('PYVC_REPO', '/repo')
